@@ -201,6 +201,21 @@ def _unwrap_pauser(p: Pauser) -> Any:
     return []
 
 
+class Nester:
+    """B's outer item: its hook runs a NESTED extract (other options) whose own hook is the pause point."""
+
+    def __init__(self, inner: Any, w2: bool, r2: bool, log: Dict[str, Any]):
+        self.inner, self.w2, self.r2, self.log = inner, w2, r2, log
+
+
+@unwrap_stackitem.register(Nester)
+def _unwrap_nester(n: Nester) -> Any:
+    n.log["B.outer.before"] = observe()
+    stackscope.extract(n.inner, with_contexts=n.w2, recurse_child_tasks=n.r2)
+    n.log["B.outer.after"] = observe()
+    return []
+
+
 def two_thread_case(wa: Any, ra: Any, wb: Any, rb: Any, b_nested_in_hook: bool) -> Optional[str]:
     log: Dict[str, Any] = {}
     goA, goB, rA, rB = threading.Event(), threading.Event(), threading.Event(), threading.Event()
@@ -209,7 +224,13 @@ def two_thread_case(wa: Any, ra: Any, wb: Any, rb: Any, b_nested_in_hook: bool) 
 
     def run(name: str, w: bool, r: bool, go: threading.Event, reached: threading.Event) -> None:
         try:
-            stackscope.extract(Pauser(name, go, reached, log), with_contexts=w, recurse_child_tasks=r)
+            item: Any = Pauser(name, go, reached, log)
+            if name == "B" and b_nested_in_hook:
+                # B: outer extract with the complementary options, nested extract with (wb, rb) around the pause
+                item = Nester(item, w, r, log)
+                stackscope.extract(item, with_contexts=not w, recurse_child_tasks=not r)
+            else:
+                stackscope.extract(item, with_contexts=w, recurse_child_tasks=r)
             log[name + ".outside"] = observe()
         except BaseException as ex:  # noqa
             errs.append(ex)
@@ -230,6 +251,9 @@ def two_thread_case(wa: Any, ra: Any, wb: Any, rb: Any, b_nested_in_hook: bool) 
         return f"thread raised {errs[0]!r}"
     exp = {"A.before": (wa_, ra_), "A.after": (wa_, ra_), "B.before": (wb_, rb_), "B.after": (wb_, rb_),
            "A.outside": (None, None), "B.outside": (None, None)}
+    if b_nested_in_hook:
+        exp["B.outer.before"] = (not wb_, not rb_)
+        exp["B.outer.after"] = (not wb_, not rb_)
     for k, v in exp.items():
         if log.get(k) != v:
             return f"{k}: observed {log.get(k)}, expected {v}"
@@ -244,12 +268,13 @@ def _s2(sh: Dict[str, Any]) -> Dict[str, Any]:
 
     def harness(e: Engine) -> None:
         wa, ra, wb, rb = e.bool("wcA"), e.bool("rcA"), e.bool("wcB"), e.bool("rcB")
-        why = two_thread_case(wa, ra, wb, rb, False)
+        nested = e.flag("B_nests_an_extract_in_its_hook")
+        why = two_thread_case(wa, ra, wb, rb, nested)
         m = e.model()
         if len(samples) < 1:
             samples.append(m)
         if why and len(cex) < 3:
-            cex.append({"threads": m, "why": why})
+            cex.append({"threads": m, "nested": nested, "why": why})
 
     eng = Engine(max_seconds=300)
     eng.explore(harness)
@@ -264,7 +289,7 @@ def run(rep: Any, tier: str, seed: int) -> None:
     D = 3 if tier == "quick" else 4
     rep.bounds = {"nesting_depth": f"1..{D}", "entry_points": ["extract", "extract_child", "fill_context", "extract_outermost"],
                   "options": "all combinations per level as z3 Bools", "abort": "BaseException raised through the push at any level",
-                  "threads": "2, one deterministic hand-off schedule (A enters, B enters, A leaves, B leaves)"}
+                  "threads": "2, deterministic hand-off schedules: A enters, B enters (optionally: B's hook enters a nested extract), A leaves, B leaves"}
     rep.outside = ["free-running concurrent extractions", "more than two threads", "other hand-off orders"]
     res = par.run_shards("harness.c13", "_s1", [{"depth": d} for d in range(1, D + 1)])
     for c in par.fold(rep, OB1, res):
@@ -277,7 +302,7 @@ def run(rep: Any, tier: str, seed: int) -> None:
 def replay(c: Dict[str, Any]) -> Dict[str, Any]:
     if "threads" in c:
         t = c["threads"]
-        why = two_thread_case(t["wcA"], t["rcA"], t["wcB"], t["rcB"], False)
+        why = two_thread_case(t["wcA"], t["rcA"], t["wcB"], t["rcB"], bool(c.get("nested")))
     else:
         why = nest_case([{k: (bool(v) if k in ("wc", "rc") and v is not None else v) for k, v in p.items()} for p in c["plan"]])
     return {"status": "reproduces" if why else "not-reproduced", "detail": why}
